@@ -127,6 +127,8 @@ type Script struct {
 	MetaAck func(c *BConn, m *message.UpstreamMetadata) (send bool, code message.ResultCode)
 	Unreliable bool // links offer an unreliable side channel
 	AckDelay   time.Duration
+	// AliasFromZero: upstream aliases are numbered 0,1,2.. per incarnation (default: 11,12.. / 21,22..)
+	AliasFromZero bool
 }
 
 type FaultKind int
@@ -390,6 +392,14 @@ func (b *Broker) serve(c *BConn) {
 	}
 }
 
+func (b *Broker) nextAlias(c *BConn) uint32 {
+	c.nextUpAlias++
+	if b.S.AliasFromZero {
+		return c.nextUpAlias - 1
+	}
+	return c.nextUpAlias + uint32(10*(c.Idx+1))
+}
+
 // HandleDefault processes m with the default behaviour (used by scripts that delay a message).
 func (b *Broker) HandleDefault(c *BConn, m message.Message) { b.handle(c, m) }
 
@@ -436,8 +446,7 @@ func (b *Broker) handle(c *BConn, m message.Message) {
 		u := &UpStream{ID: StreamUUID('u', len(b.Ups)+1), Ord: len(b.Ups), QoS: m.QoS, Alias: map[int]uint32{}, DataAlias: map[uint32]message.DataID{}, RevAlias: map[message.DataID]uint32{}, Open: m}
 		b.Ups = append(b.Ups, u)
 		b.upByID[u.ID] = u
-		c.nextUpAlias++
-		al := c.nextUpAlias + uint32(10*(c.Idx+1))
+		al := b.nextAlias(c)
 		u.Alias[c.Idx] = al
 		c.upAlias[al] = u
 		resp := &message.UpstreamOpenResponse{RequestID: m.RequestID, AssignedStreamID: u.ID, AssignedStreamIDAlias: al, ResultCode: code, ResultString: "OK", ServerTime: time.Unix(1700000000, 0).UTC(), DataIDAliases: map[uint32]*message.DataID{}}
@@ -472,8 +481,7 @@ func (b *Broker) handle(c *BConn, m message.Message) {
 			b.Send(c, &message.UpstreamResumeResponse{RequestID: m.RequestID, ResultCode: code, ResultString: "resume refused"})
 			return
 		}
-		c.nextUpAlias++
-		al := c.nextUpAlias + uint32(10*(c.Idx+1))
+		al := b.nextAlias(c)
 		u.Alias[c.Idx] = al
 		c.upAlias[al] = u
 		b.Send(c, &message.UpstreamResumeResponse{RequestID: m.RequestID, AssignedStreamIDAlias: al, ResultCode: code, ResultString: "OK"})
